@@ -3,11 +3,12 @@
 From FS Require Import Model.Exec Proofs.ExecProofs.
 From Coq Require Import ZifyBool.
 
-Definition is_kind (k : evk) (e : event) : bool :=
-  match k, e_kind e with
-  | KRetry, KRetry | KFnEnd, KFnEnd => true
+Definition kind_eq (k1 k2 : evk) : bool :=
+  match k1, k2 with
+  | KRetry, KRetry | KFnEnd, KFnEnd | KHedge, KHedge => true
   | _, _ => false
   end.
+Definition is_kind (k : evk) (e : event) : bool := kind_eq k (e_kind e).
 
 Definition cntk (k : evk) (tr : list event) : Z := Z.of_nat (length (filter (is_kind k) tr)).
 
@@ -16,42 +17,63 @@ Fixpoint trace_ok (tr : list event) : Prop :=
   match tr with
   | [] => True
   | e :: rest =>
-      e_attempts e = 1 + e_retries e /\ e_retries e = cntk KRetry (e :: rest) /\ e_executions e = cntk KFnEnd (e :: rest)
+      e_attempts e = 1 + e_retries e + e_hedges e /\ e_retries e = cntk KRetry (e :: rest) /\ e_hedges e = cntk KHedge (e :: rest)
+      /\ e_executions e = cntk KFnEnd (e :: rest)
       /\ (match rest with e' :: _ => e_time e' <= e_time e | [] => True end)
       /\ trace_ok rest
   end.
 
 Record Tr (w : world) : Prop := {
-  tr_att : w_attempts w = 1 + w_retries w;
+  tr_att : w_attempts w = 1 + w_retries w + w_hedges w;
   tr_ret : w_retries w = cntk KRetry (w_trace w);
+  tr_hed : w_hedges w = cntk KHedge (w_trace w);
   tr_exe : w_executions w = cntk KFnEnd (w_trace w);
   tr_time : match w_trace w with e :: _ => e_time e <= w_now w | [] => True end;
   tr_ok : trace_ok (w_trace w) }.
 
-Definition plain_kind (k : evk) : bool := match k with KRetry | KFnEnd => false | _ => true end.
+Definition plain_kind (k : evk) : bool := match k with KRetry | KFnEnd | KHedge => false | _ => true end.
+Definition bump (k1 k : evk) : Z := if kind_eq k1 k then 1 else 0.
 
-Lemma cntk_cons k e tr : cntk k (e :: tr) = (if is_kind k e then 1 else 0) + cntk k tr.
-Proof. unfold cntk. cbn [filter]. destruct (is_kind k e); cbn [length]; lia. Qed.
+Lemma cntk_cons k e tr : cntk k (e :: tr) = bump k (e_kind e) + cntk k tr.
+Proof. unfold cntk, bump, is_kind. cbn [filter]. destruct (kind_eq k (e_kind e)); cbn [length]; lia. Qed.
+
+(* emitting an event after the counters were moved the way this kind of event requires *)
+Lemma Tr_emit_gen w w' k pos o aux :
+  Tr w -> w_trace w' = w_trace w -> w_now w <= w_now w' ->
+  w_retries w' = w_retries w + bump KRetry k -> w_hedges w' = w_hedges w + bump KHedge k ->
+  w_executions w' = w_executions w + bump KFnEnd k ->
+  w_attempts w' = w_attempts w + bump KRetry k + bump KHedge k ->
+  Tr (emit w' k pos o aux).
+Proof.
+  intros [Ha Hr Hh He Ht Hok] Etr Enow Er Eh Ex Eatt.
+  constructor; unfold emit; cbn [w_attempts w_retries w_hedges w_executions w_trace w_now set_trace]; rewrite ?Etr.
+  - lia.
+  - rewrite cntk_cons. cbn [e_kind]. lia.
+  - rewrite cntk_cons. cbn [e_kind]. lia.
+  - rewrite cntk_cons. cbn [e_kind]. lia.
+  - cbn [e_time]. lia.
+  - cbn [trace_ok e_attempts e_retries e_hedges e_executions e_time].
+    repeat split; try assumption; rewrite ?cntk_cons; cbn [e_kind]; try lia.
+    destruct (w_trace w); [exact I|lia].
+Qed.
 
 Lemma Tr_emit w k pos o aux : plain_kind k = true -> Tr w -> Tr (emit w k pos o aux).
 Proof.
-  intros Hk [Ha Hr He Ht Hok]. constructor; unfold emit; cbn [w_attempts w_retries w_executions w_trace w_now set_trace]; try assumption.
-  - rewrite cntk_cons. cbn [is_kind e_kind]. destruct k; cbn in *; try discriminate; lia.
-  - rewrite cntk_cons. cbn [is_kind e_kind]. destruct k; cbn in *; try discriminate; lia.
-  - cbn [e_time]. lia.
-  - cbn [trace_ok e_attempts e_retries e_executions e_time]. repeat split; try assumption.
-    + rewrite cntk_cons. cbn [is_kind e_kind]. destruct k; cbn in *; try discriminate; lia.
-    + rewrite cntk_cons. cbn [is_kind e_kind]. destruct k; cbn in *; try discriminate; lia.
+  intros Hk H. apply (Tr_emit_gen w); try reflexivity; try exact H; try lia;
+    unfold bump; destruct k; cbn in *; try discriminate; lia.
 Qed.
 
 (* updates that touch neither counters, trace nor clock *)
 Lemma Tr_frame w w' :
   w_attempts w' = w_attempts w -> w_retries w' = w_retries w -> w_executions w' = w_executions w ->
+  w_hedges w' = w_hedges w ->
   w_trace w' = w_trace w -> w_now w <= w_now w' -> Tr w -> Tr w'.
 Proof.
-  intros E1 E2 E3 E4 E5 [Ha Hr He Ht Hok]. constructor; rewrite ?E1, ?E2, ?E3, ?E4; try assumption.
+  intros E1 E2 E3 Eh E4 E5 [Ha Hr Hh He Ht Hok]. constructor; rewrite ?E1, ?E2, ?E3, ?Eh, ?E4; try assumption.
   destruct (w_trace w); [exact I|lia].
 Qed.
+
+Ltac tr_frame H := apply (Tr_frame _ _); try reflexivity; try (cbn; lia); try exact H.
 
 Lemma Tr_ev_with_result w c k pos r : plain_kind k = true -> Tr w -> Tr (ev_with_result w c k pos r).
 Proof. intros. unfold ev_with_result. apply Tr_emit; assumption. Qed.
@@ -85,19 +107,52 @@ Proof. intros H. apply (Tr_frame w); try reflexivity; try (cbn; lia); try exact 
 Lemma Tr_set_oof w : Tr w -> Tr (set_oof w).
 Proof. intros H. apply (Tr_frame w); try reflexivity; try (cbn; lia); try exact H. Qed.
 
-Lemma Tr_advance fuel : forall w t intr, Tr w -> Tr (snd (advance fuel w t intr)).
+Lemma Tr_settle w t : Tr w -> Tr (settle w t).
+Proof. intros H. destruct t; [apply Tr_set_now|]; exact H. Qed.
+
+Lemma Tr_set_hedge_same w bg hs : Tr w -> Tr (set_hedge w (w_hedges w) bg hs).
+Proof. intros H. apply (Tr_frame w); try reflexivity; try (cbn; lia); exact H. Qed.
+
+(* the function returns: Executions +1, then the exit event *)
+Lemma Tr_fn_end w pos o : Tr w -> Tr (emit (set_counters w (w_attempts w) (w_retries w) (w_executions w + 1)) KFnEnd pos o 0).
+Proof. intros H. apply (Tr_emit_gen w); try reflexivity; try exact H; cbn; lia. Qed.
+
+Lemma Tr_finish_bg w b : Tr w -> Tr (finish_bg w b).
 Proof.
-  induction fuel as [|fuel IH]; intros w t intr H; cbn [advance].
-  - destruct (match intr with Some c => _ | None => false end); cbn [snd]; [exact H|apply Tr_set_now; exact H].
+  intros H. unfold finish_bg.
+  set (w1 := set_hedge w (w_hedges w) _ (w_hs w)). assert (H1 : Tr w1) by (apply Tr_set_hedge_same, H).
+  pose proof (Tr_fn_end w1 (bg_pos b) (bg_out b) H1) as H3.
+  match goal with |- context [if ?c then _ else _] => destruct c end; [|exact H3].
+  eapply Tr_frame; [..|exact H3]; try reflexivity; cbn; lia.
+Qed.
+
+Lemma Tr_refresh_bg w : Tr w -> Tr (refresh_bg w).
+Proof.
+  intros H. unfold refresh_bg. match goal with |- context [if ?c then _ else _] => destruct c end.
+  - apply Tr_set_oof, Tr_set_hedge_same, H.
+  - apply Tr_set_hedge_same, H.
+Qed.
+
+Lemma Tr_advance fuel : forall w t intr acc, Tr w -> Tr (snd (advance fuel w t intr acc)).
+Proof.
+  induction fuel as [|fuel IH]; intros w t intr acc H; cbn [advance].
   - destruct (match intr with Some c => _ | None => false end); cbn [snd]; [exact H|].
-    destruct (next_timer w) as [[tt src]|]; [|apply Tr_set_now; exact H].
-    destruct (tt <=? t); [|apply Tr_set_now; exact H].
-    apply IH.
-    set (w0 := if (tt =? t) || Nat.ltb 1 (sources_at w tt) then set_oof w else w).
-    assert (H0 : Tr w0) by (subst w0; destruct (_ || _); [apply Tr_set_oof|]; exact H).
-    assert (H1 : Tr (set_now w0 (Z.max (w_now w0) tt))) by (apply Tr_set_now; exact H0).
-    destruct src as [s|]; [apply Tr_fire_timeout; exact H1|].
-    destruct (w_ext w) as [[? e]|]; [apply Tr_fire_ext|]; exact H1.
+    destruct (acc && _); cbn [snd]; [exact H|apply Tr_settle; exact H].
+  - destruct (match intr with Some c => _ | None => false end); cbn [snd]; [exact H|].
+    destruct (acc && _); cbn [snd]; [exact H|].
+    match goal with |- context [if ?c then _ else _] => destruct c end.
+    + destruct (bg_earliest (w_bg w)) as [b|]; [|apply Tr_settle; exact H].
+      destruct (due (bg_finish b) t); [|apply Tr_settle; exact H].
+      apply IH. apply Tr_finish_bg. apply Tr_set_now.
+      match goal with |- context [if ?c then _ else _] => destruct c end; [apply Tr_set_oof|]; exact H.
+    + destruct (next_timer w) as [[tt src]|]; [|apply Tr_settle; exact H].
+      destruct (due tt t); [|apply Tr_settle; exact H].
+      apply IH. apply Tr_refresh_bg.
+      match goal with |- context [set_now (if ?c then set_oof w else w) _] => set (w0 := if c then set_oof w else w) end.
+      assert (H0 : Tr w0) by (subst w0; match goal with |- context [if ?c then _ else _] => destruct c end; [apply Tr_set_oof|]; exact H).
+      assert (H1 : Tr (set_now w0 (Z.max (w_now w0) tt))) by (apply Tr_set_now; exact H0).
+      destruct src as [s|]; [apply Tr_fire_timeout; exact H1|].
+      destruct (w_ext w) as [[? e]|]; [apply Tr_fire_ext|]; exact H1.
 Qed.
 
 Lemma Tr_wait w d intr : Tr w -> Tr (snd (wait w d intr)).
@@ -112,23 +167,16 @@ Proof.
   assert (H0 : Tr w0) by (apply (Tr_frame w); try reflexivity; try (cbn; lia); try exact H).
   set (w1 := emit w0 KFnStart pos _ 0).
   assert (H1 : Tr w1) by (apply Tr_emit; [reflexivity|exact H0]).
-  assert (Hfin : forall o w2, Tr w2 ->
-     Tr (emit (set_counters w2 (w_attempts w2) (w_retries w2) (w_executions w2 + 1)) KFnEnd pos o 0)).
-  { intros o w2 [Ha Hr He Ht Hok]. constructor; unfold emit; cbn [w_attempts w_retries w_executions w_trace w_now set_trace set_counters].
-    - exact Ha.
-    - rewrite cntk_cons. cbn [is_kind e_kind]. lia.
-    - rewrite cntk_cons. cbn [is_kind e_kind]. lia.
-    - cbn [e_time]. lia.
-    - cbn [trace_ok e_attempts e_retries e_executions e_time].
-      repeat split; try assumption; rewrite cntk_cons; cbn [is_kind e_kind]; lia. }
   destruct (fs_coop _) as [co|].
   - match goal with |- context [wait w1 ?d ?i] => pose proof (Tr_wait w1 d i H1) as Hw; destruct (wait w1 d i) as [ii w'] end.
-    cbn [snd] in *. apply Hfin. exact Hw.
+    cbn [snd] in *. destruct ii.
+    + match goal with |- context [wait w' ?d ?i] => pose proof (Tr_wait w' d i Hw) as Hw2; destruct (wait w' d i) as [jj w''] end.
+      cbn [snd] in *. apply Tr_fn_end. exact Hw2.
+    + cbn [snd]. apply Tr_fn_end. exact Hw.
   - match goal with |- context [wait w1 ?d ?i] => pose proof (Tr_wait w1 d i H1) as Hw; destruct (wait w1 d i) as [ii w'] end.
-    cbn [snd] in *. apply Hfin. exact Hw.
+    cbn [snd] in *. apply Tr_fn_end. exact Hw.
 Qed.
 
-Ltac tr_frame H := apply (Tr_frame _ _); try reflexivity; try (cbn; lia); try exact H.
 
 Lemma Tr_emit_bevents pos evs : forall w, Tr w -> Tr (emit_bevents w pos evs).
 Proof.
@@ -255,22 +303,50 @@ Proof.
     destruct (is_canceled w5 c); [exact H5|].
     (* InitializeRetry: attempts and retries +1, then the retry event *)
     match goal with |- context [retry_loop fuel cfg pos inner c ?w9] => assert (H9 : Tr w9) end.
-    { destruct H5 as [Ha Hr He Ht Hok].
-      unfold ev_with_result, emit. constructor; cbn [w_attempts w_retries w_executions w_trace w_now set_trace set_counters set_copies set_cell].
-      - lia.
-      - rewrite cntk_cons. cbn [is_kind e_kind]. lia.
-      - rewrite cntk_cons. cbn [is_kind e_kind]. lia.
-      - cbn [e_time]. lia.
-      - cbn [trace_ok e_attempts e_retries e_executions e_time].
-        repeat split; try assumption; try lia; rewrite cntk_cons; cbn [is_kind e_kind]; lia. }
+    { unfold ev_with_result. apply (Tr_emit_gen w5); try reflexivity; try exact H5; cbn; lia. }
     specialize (IH c _ H9). destruct (retry_loop fuel cfg pos inner c _) as [[rr ww] n]. exact IH.
 Qed.
+
+Lemma Tr_cancel_copy w cs : Tr w -> Tr (cancel_copy w cs).
+Proof. intros H. unfold cancel_copy. destruct (copy_err w (fst cs)); [exact H|]. apply Tr_mark_done, Tr_set_cell, H. Qed.
+
+Lemma Tr_cancel_others started : forall w i winner, Tr w -> Tr (cancel_others w started i winner).
+Proof.
+  induction started as [|cs rest IH]; intros w i winner H; cbn [cancel_others]; [exact H|].
+  apply IH. destruct (Nat.eqb i winner); [exact H|apply Tr_cancel_copy, H].
+Qed.
+
+(* a hedged run: Attempts and Hedges +1 with each hedge started, Executions +1 with each attempt that returns,
+   whether or not the hedge layer is still waiting for it *)
+Lemma hedge_loop_preserves cfg pos total : forall fuel c k started w, Tr w -> Tr (snd (hedge_loop fuel cfg pos total c k started w)).
+Proof.
+  induction fuel as [|fuel IH]; intros c k started w H; cbn [hedge_loop].
+  - cbn [snd]. apply Tr_set_oof, H.
+  - set (w1 := set_scopes w _ _ _). assert (H1 : Tr w1) by (apply Tr_set_scopes, H).
+    set (w2 := set_copies w1 _). assert (H2 : Tr w2) by (apply Tr_set_copies, H1).
+    match goal with |- context [set_script ?w3 _] => set (w3' := w3) end.
+    assert (H3 : Tr w3').
+    { subst w3'. destruct k as [|k']; [exact H2|].
+      apply (Tr_emit_gen w2); try reflexivity; try exact H2; cbn; lia. }
+    set (w4 := set_script w3' _). assert (H4 : Tr w4) by (apply (Tr_frame w3'); try reflexivity; try (cbn; lia); exact H3).
+    set (w5 := emit w4 KFnStart total _ _). assert (H5 : Tr w5) by (apply Tr_emit; [reflexivity|exact H4]).
+    match goal with |- context [refresh_bg ?x] => set (w6 := refresh_bg x); assert (H6 : Tr w6) by (apply Tr_refresh_bg, Tr_set_hedge_same, H5) end.
+    match goal with |- context [advance ?f w6 ?t ?i ?a] => pose proof (Tr_advance f w6 t i a H6) as H7; destruct (advance f w6 t i a) as [ii w7] end.
+    cbn [snd] in H7.
+    destruct (is_canceled w7 c); [exact H7|].
+    destruct (hs_acc (w_hs w7)) as [[idx out]|].
+    + cbn [snd]. apply Tr_refresh_bg, Tr_cancel_others. unfold clear_acc. apply Tr_set_hedge_same, H7.
+    + match goal with |- context [if ?c then Some _ else None] => destruct c end; [apply IH; exact H7|cbn [snd]; apply Tr_set_oof, H7].
+Qed.
+
+Lemma hedge_layer_preserves pos total cfg : preserves (hedge_layer pos total cfg).
+Proof. intros c w H. unfold hedge_layer. apply hedge_loop_preserves. apply Tr_set_hedge_same, H. Qed.
 
 Theorem compose_preserves fuel stack : forall pos total, preserves (compose fuel pos stack total).
 Proof.
   induction stack as [|p rest IH]; intros pos total; cbn [compose].
   - apply fn_layer_preserves.
-  - specialize (IH (S pos) total). destruct p as [rc|bi|li lmw|ki kmw|lim|fc|ci cc]; cbn [apply_policy].
+  - specialize (IH (S pos) total). destruct p as [rc|bi|li lmw|ki kmw|lim|fc|ci cc|hc]; cbn [apply_policy].
     + intros c w H. apply (retry_loop_preserves rc pos _ IH fuel c w H).
     + apply breaker_layer_preserves, IH.
     + apply limiter_layer_preserves, IH.
@@ -278,20 +354,28 @@ Proof.
     + apply timeout_layer_preserves, IH.
     + apply fallback_layer_preserves, IH.
     + apply cache_layer_preserves, IH.
+    + apply hedge_layer_preserves.
 Qed.
 
 Lemma fresh_world_Tr now ext key b l k c script : Tr (fresh_world now ext key b l k c script).
 Proof. constructor; cbn; try reflexivity; exact I. Qed.
 
-(* C17: in the complete log of any execution through any stack, with any script, every event
-   (function entry and exit, every listener, the completion events) reports
-   Attempts = 1 + Retries, Retries = number of retries started so far, Executions = number of
-   function invocations completed so far, and time stamps never decrease. *)
-Theorem execution_statistics_exact fuel stack now ext key b l k c script :
-  trace_ok (w_trace (snd (execute fuel stack (fresh_world now ext key b l k c script)))).
+Lemma Tr_execute fuel stack w : Tr w -> Tr (snd (execute fuel stack w)).
 Proof.
-  unfold execute.
-  pose proof (compose_preserves fuel stack 0 (length stack) 0%nat _ (fresh_world_Tr now ext key b l k c script)) as H.
+  intros H0. unfold execute.
+  pose proof (compose_preserves fuel stack 0 (length stack) 0%nat _ H0) as H.
   destruct (compose fuel 0 stack (length stack) 0%nat _) as [r w1]. cbn [snd] in *.
-  apply tr_ok. apply Tr_emit; [reflexivity|]. destruct (pr_all r); apply Tr_emit; try reflexivity; exact H.
+  apply Tr_emit; [reflexivity|]. destruct (pr_all r); apply Tr_emit; try reflexivity; exact H.
 Qed.
+
+Lemma Tr_drain w : Tr w -> Tr (drain w).
+Proof. intros H. unfold drain. destruct (w_bg w); [exact H|]. apply Tr_advance, Tr_set_scopes, H. Qed.
+
+(* C17: in the complete log of any execution through any stack (a hedge policy, if any, innermost), with any script --
+   including what hedge attempts still running when the execution returns log afterwards -- every event (function
+   entry and exit, every listener, the completion events) reports Attempts = 1 + Retries + Hedges, Retries = number
+   of retries started so far, Hedges = number of hedges started so far, Executions = number of function
+   invocations completed so far, and time stamps never decrease. *)
+Theorem execution_statistics_exact fuel stack now ext key b l k c script :
+  trace_ok (w_trace (drain (snd (execute fuel stack (fresh_world now ext key b l k c script))))).
+Proof. apply tr_ok, Tr_drain, Tr_execute, fresh_world_Tr. Qed.
